@@ -7,6 +7,8 @@
     new <faults> <config>         (faults: `-` or comma list of l s a h = nil Locker / Store / FetchArena / client,
                                    r = RegisterScanners fails, c<k> = the k-th stub scanner-constructor call fails)
                                   -> as config, or `err ct=<constructor calls> rg=<RegisterScanners called> cf=..`
+    run <next>/<err>/<flags>;...  (controller.run over scripted state functions: err of - g c d, flags of x p w)
+                                  -> ev=<calls, SetIndexReports, waits> e=.. st=.. s=.. er=..
     net up|down                   -> ok   (scanners flagged N return *net.AddrError while the network is down)
     index <l.l.l> <pos:f,...> <live|dead>
                                   -> e=.. s=.. st=.. er=.. b=.. sc=.. sr=.. n=.. t=..
@@ -16,6 +18,7 @@ import Driver.Util
 import ClairModel.Model.Indexer
 import ClairModel.Model.IndexerExt
 import ClairModel.Model.StateToken
+import ClairModel.Model.RunClock
 
 namespace Driver.Indexer
 open ClairModel ClairModel.Indexer
@@ -214,6 +217,34 @@ def newLine (s : State) (nf : NewFaults) (specs : List Spec) : State × String :
   else
     (s, s!"err ct={out.ctorCalls} rg={b01 out.registered} cf={eventsStr out.events}")
 
+def parseState (n : String) : Option CState :=
+  [CState.terminal, .checkManifest, .fetchLayers, .scanLayers, .coalesce, .indexManifest, .indexError, .indexFinished].find?
+    fun c => c.name == n
+
+def parseIter (p : String) : Option RunClock.Iter :=
+  match p.splitOn "/" with
+  | [n, e, f] => do
+    let next ← parseState n
+    let err ← match e with
+      | "-" => some none | "g" => some (some ErrClass.gen) | "c" => some (some ErrClass.can) | "d" => some (some ErrClass.dl)
+      | _ => none
+    pure { next := next, err := err, cancel := f.toList.contains 'x', persistFails := f.toList.contains 'p',
+           cancelInWait := f.toList.contains 'w' }
+  | _ => none
+
+def evStr : RunClock.Ev → String
+  | .call c => "c:" ++ c.name
+  | .persist st su er ok => s!"p:{stateStr st},{b01 su},{b01 er},{b01 ok}"
+  | .wait j => if j then "w:j" else "w:0"
+
+def runLine (spec : String) : String :=
+  match (if spec == "-" then some [] else (spec.splitOn ";").mapM parseIter) with
+  | none => "bad-op"
+  | some script =>
+    let (evs, st, r) := RunClock.run (script.length + 2) script {}
+    let ev := if evs.isEmpty then "-" else " ".intercalate (evs.map evStr)
+    s!"ev={ev} e={errStr r} st={stateStr st.state} s={b01 st.success} er={b01 st.errSet}"
+
 def stepLine (s : State) (l : String) : State × String :=
   if l == "reset" then ({}, "ok") else
   match Driver.words l with
@@ -226,6 +257,7 @@ def stepLine (s : State) (l : String) : State × String :=
     | some nf, some specs => newLine s nf specs
     | _, _ => (s, "bad-op")
   | ["net", x] => ({ s with netDown := x == "down" }, "ok")
+  | ["run", spec] => (s, runLine spec)
   | ["index", ls, sc, d] =>
     match parseLayers ls, parseScript sc with
     | some m, some script =>
